@@ -171,6 +171,7 @@ func runC11(c *Ctx) {
 	viaLogger := g.Chance(4)
 	if viaLogger {
 		c.Describe("entries are logged through a zap.Logger over the sampler")
+		c.R.Probe("entries logged through a zap.Logger over the sampler")
 	}
 	// the sampler is built by either constructor: with a decision hook, by
 	// NewSamplerWithOptions without options, or by the older NewSampler; without
@@ -182,8 +183,10 @@ func runC11(c *Ctx) {
 		sampler = zapcore.NewSamplerWithOptions(inner, tick, N, M, zapcore.SamplerHook(hook))
 	case g.Chance(2):
 		sampler = zapcore.NewSamplerWithOptions(inner, tick, N, M)
+		c.R.Probe("sampler built without a hook")
 	default:
 		sampler = zapcore.NewSampler(inner, tick, N, M)
+		c.R.Probe("sampler built by the deprecated NewSampler")
 	}
 	child := sampler.With([]zapcore.Field{{Key: "k", Type: zapcore.Int64Type, Integer: 1}})
 	epoch := drawEpoch(g)
